@@ -2,6 +2,7 @@
 """Re-run every check against every kept behaviour-preserving refactoring (apply to /repo, check, restore).
 All must stay silent.  usage: run_refactors.py [id ...]"""
 import sys, os, json, subprocess
+os.environ['VERIF_EVIDENCE_DIR'] = '/tmp/pp-evidence-scratch'
 VERIF = os.path.dirname(os.path.dirname(os.path.abspath(__file__)))
 
 
